@@ -44,6 +44,7 @@ type KSRS interface {
 	VkLines() interface{}   // &Vk.Lines
 	VkMem() []byte          // copy of the raw memory image of Vk (it holds no pointers)
 	Truncated(n int) KSRS   // same Vk value, Pk.G1[:n] (shares the backing array)
+	CloneN(n int) KSRS      // independent copy: same Vk value, a fresh slice holding Pk.G1[:n]
 	LinesConsistent() bool  // Vk.Lines[i] == curve.PrecomputeLines(Vk.G2[i]) for i=0,1
 }
 
